@@ -19,6 +19,7 @@ import time
 
 import vlib
 from props import c13gen as G
+from props import c13slow as SLOW
 
 KNOWN_KINDS = set(G.KINDS)
 CONFIGS = [dict(media=m, calls=c, validators=v) for m, c, v in itertools.product((0, 1), repeat=3)]
@@ -39,6 +40,8 @@ class Item:
             return "ak %s" % (self.raw.hex() or "-")
         if self.op == "probe":
             return "probe"
+        if self.op in ("clog", "unclog"):
+            return "%s %s" % (self.op, self.sess)
         return "%s %s %s" % (self.op, self.sess, self.raw.hex() or "-")
 
     def show(self):
@@ -70,7 +73,40 @@ def shape_of(m):
             str(b.get("tmpscheme", ""))[:8] if k == "acc" else "", str(b.get("user", ""))[:3] if k == "acc" else "")
 
 
+def slow_item(sess, m):
+    return Item("in", sess, G.dumps(m), shape_of(m), msg=m, gen="slow-consumer")
+
+
+def clog_item(op, sess):
+    return Item(op, sess, b"", (op,), gen="slow-consumer")
+
+
+WINDOW_NO = [0]
+
+
 def gen_group(rng, n, profile):
+    """n generated inputs; two clog / traffic / unclog triples (tools/props/c13slow.py) are inserted at random
+    positions of EVERY group, so that every run has connections with a full send queue under every kind of traffic."""
+    items = gen_plain(rng, n, profile)
+    for _ in range(2):
+        WINDOW_NO[0] += 1
+
+        def gen_any(sess):
+            m = G.gen_msg(rng, G.pick(rng, G.KINDS))
+            return Item("in", sess, G.dumps(m), shape_of(m), msg=m, gen="structured")
+        w = SLOW.window(rng, slow_item, clog_item, gen_any, WINDOW_NO[0])
+        at = rng.randrange(len(items) + 1)
+        depth = 0          # not inside the window inserted before
+        for it in items[:at]:
+            depth += 1 if it.op == "clog" else -1 if it.op == "unclog" else 0
+        if depth == 0:
+            items[at:at] = w
+        else:
+            items += w
+    return items
+
+
+def gen_plain(rng, n, profile):
     items = []
     for _ in range(n):
         sess = rng.choices(G.SESSIONS, G.SESS_W)[0]
@@ -157,7 +193,7 @@ def canonical_groups():
 
 # ---------------- running the driver ----------------
 
-R_RE = re.compile(r"^r (\d+) (\S+) dec=(\S+) id=(\S+) topic=(\S+) st=(\S+) res=(\S+) term=(\d) frames=(\S+) others=(\d+)$")
+R_RE = re.compile(r"^r (\d+) (\S+) dec=(\S+) id=(\S+) topic=(\S+) st=(\S+) res=(\S+) term=(\d) frames=(\S+) others=(\d+)(?: cl=(\d) ev=(\S+))?$")
 
 
 def unhx(h):
@@ -256,10 +292,14 @@ def run_driver(ctx, cfg, groups, tag):
             if w[2] == "ak":
                 results[k] = {"ak": " ".join(w[3:])}
                 continue
+            if w[2] in ("clog", "unclog"):
+                results[k] = {"clog": w[4] if len(w) > 4 else "?", "op": w[2]}
+                continue
             m = R_RE.match(l)
             if m:
                 results[k] = dict(sess=m.group(2), dec=m.group(3), id=unhx(m.group(4)), topic=unhx(m.group(5)), st=m.group(6), res=m.group(7),
-                                  term=m.group(8) == "1", frames=parse_frames(m.group(9)), others=int(m.group(10)))
+                                  term=m.group(8) == "1", frames=parse_frames(m.group(9)), others=int(m.group(10)),
+                                  cl=m.group(11) == "1", ev=[] if m.group(12) in (None, "-") else m.group(12).split("+"))
             else:
                 # HANG lines have no term/frames part
                 results[k] = dict(sess=w[2], dec="?", id="", topic="", st="", res=[x for x in w if x.startswith("res=")][0][4:], term=False, frames=[], others=0, fatal=True)
@@ -313,6 +353,14 @@ def monitor(cfg, group, items, results):
             if r["probe"] != "ok":
                 yield ("bystander-not-served", k, r["probe"])
             continue
+        if "clog" in r:
+            # the driver's own sanity: a frame entered a full buffer / the server does not come to rest after the
+            # connection reads again
+            if r["clog"].startswith("CLOGLEAK"):
+                yield ("slow-consumer-driver", k, "a frame entered a send buffer that was full: " + r["clog"])
+            elif r["clog"].startswith("HANG"):
+                yield ("slow-consumer-hang", k, "after a stuck connection reads again the server does not come to rest: " + r["clog"])
+            continue
         if "ak" in r:
             if r["ak"].startswith("PANIC"):
                 site = re.search(r"site=(\S+)", r["ak"]).group(1)
@@ -323,6 +371,10 @@ def monitor(cfg, group, items, results):
             yield ("read-loop-panic@" + site, k, "panic in the session's read-loop goroutine (no recover in production: the server process dies): " + unhx(msg))
             continue
         if r["term"] or r["dec"] in ("probe1", "pberr", "pbpanic"):
+            continue
+        if r.get("cl"):
+            # the requesting connection is stuck: its replies cannot be queued (Session.queueOut fails on the full
+            # buffer) and nothing can be observed on it; only crashes, hangs and the bystander are checked
             continue
         dec = r["dec"]
         kind = dec.split("/")[0]
@@ -362,7 +414,7 @@ def unsolicited(f):
 def fuzz(ctx, stats):
     quick = ctx.tier == "quick"
     n_groups = 16 if quick else 160
-    glen = 60 if quick else 80
+    glen = 54 if quick else 80         # + two slow-consumer windows of ~9 inputs in every group
     max_restarts = 12 if quick else 60
     total_eval = 0
     if ctx.replay:
@@ -376,7 +428,7 @@ def fuzz(ctx, stats):
             rp = json.load(open(ctx.replay))["replay"]
             groups = [[Item(i["op"], i["session"], bytes.fromhex(i["hex"]), ("replay",), gen="replay") for i in rp["inputs"]]]
         else:
-            groups = canonical_groups() + (lifecycle_groups() if ci == 0 or not quick else [])
+            groups = canonical_groups() + (lifecycle_groups() if ci == 0 or not quick else []) + (SLOW.slow_groups(slow_item, clog_item) if ci == 0 or not quick else [])
             for gi in range(n_groups):
                 groups.append(gen_group(rng, glen, ["mixed", "mixed", "structured", "raw"][gi % 4] if gi % 8 != 7 else "raw"))
         crashed_shapes = {}
@@ -410,7 +462,7 @@ def fuzz(ctx, stats):
                     if r is not None:
                         account(stats, cfg, it, r)
                         total_eval += 1
-                        if it.msg is not None and "dec" in r:
+                        if it.msg is not None and "dec" in r and not r.get("cl"):
                             stats.setdefault("model_cases", []).append((cfg, it, r))
             if not fatal:
                 break
@@ -463,7 +515,12 @@ def minimise(ctx, cfg, items, law, fatal_site=None):
         if fatal_site is not None:
             return fatal is not None and fatal["site"] == fatal_site
         return any(l == law for l, _, _ in monitor(cfg, cand, flat, results))
-    for cand in ([items[-1]], items[-2:], items[-4:]):
+    cands = [[items[-1]], items[-2:], items[-4:]]
+    if any(it.op == "clog" for it in items):
+        # slow consumers: the clog / unclog operations of the prefix are kept in front of the last inputs
+        for k in (1, 2, 4, 8):
+            cands.append([it for it in items[:-k] if it.op in ("clog", "unclog")] + items[-k:])
+    for cand in cands:
         if len(cand) < len(items) and reproduces(cand):
             return cand
     return items
@@ -477,6 +534,15 @@ def account(stats, cfg, it, r):
         t[key] = t.get(key, 0) + 1
     inc("by_config", cfg_name(cfg))
     inc("by_generator", it.gen)
+    if "clog" in r:
+        inc("slow_consumer", "%s %s" % (r["op"], r["clog"]))
+        return
+    if r.get("cl"):
+        inc("slow_consumer", "requests sent by a stuck connection")
+    for c in r.get("ev", []):
+        # attachments a stuck connection lost while this request was handled, by the kind of the request and the
+        # category of the topic it was detached from (the request's own {leave} included)
+        inc("slow_consumer_detached", "%s%s -> %s" % ("own " if r.get("cl") else "", r["dec"].split("/")[0], c))
     if "probe" in r or "ak" in r:
         inc("by_kind", it.op)
         return
@@ -531,7 +597,7 @@ def run(ctx):
         },
         "evaluations": stats["evaluations"] + stats.get("drafty", {}).get("evaluations", 0),
         "distinct_nontrivial": len(stats["nontrivial"]),
-        "rule": "per configuration of (media handler, calls, validators) in {0,1}^3: corpus of confirmed triggers, then seeded groups of %s inputs (profiles mixed/structured/raw) over sessions in states nohi/hi/in/att/peer/root of a population rebuilt per group through the real {sub}/{pub} paths; structured = all ten kinds with every field drawn from boundary pools (tools/props/c13gen.py); raw = random bytes, truncated/mutated JSON, wrong types, nesting up to 100000, huge/ill-formed numbers, invalid UTF-8, duplicate/upper-case keys, multi-kind messages; plus protobuf ClientMsg through pbCliDeserialize and API keys through checkAPIKey; non-trivial = accepted (2xx or meta/data answer)" % ("60" if ctx.tier == "quick" else "80"),
+        "rule": "per configuration of (media handler, calls, validators) in {0,1}^3: corpus of confirmed triggers, then seeded groups of %s inputs (profiles mixed/structured/raw) over sessions in states nohi/hi/in/att/peer/root of a population rebuilt per group through the real {sub}/{pub} paths; structured = all ten kinds with every field drawn from boundary pools (tools/props/c13gen.py); raw = random bytes, truncated/mutated JSON, wrong types, nesting up to 100000, huge/ill-formed numbers, invalid UTF-8, duplicate/upper-case keys, multi-kind messages; plus protobuf ClientMsg through pbCliDeserialize and API keys through checkAPIKey; non-trivial = accepted (2xx or meta/data answer)" % ("54+18" if ctx.tier == "quick" else "80+18"),
         "traces_validated_against_impl": stats["evaluations"],
         "input_distribution": dict(d, share_rejected_at_json_level=round(kinds.get("(json rejected)", 0) / total, 4)),
         "fuzz_wall_s": round(t_fuzz, 1),
